@@ -363,6 +363,11 @@ class StmtMixin(object):
         elif k == 'dict':
           self.dict_set(s1, base, coerce(idx, base.ty.args[0]), v)
           yield s1, None
+        elif k == 'ref' and self.dictlike_info(base.ty) is not None:
+          f = self.dl_field(self.dictlike_info(base.ty), idx, t)
+          self.store_field(s1, base.t, base.ty.name, f, v)
+          self.store_field(s1, base.t, base.ty.name, 'has_' + f, mk_bool(True))
+          yield s1, None
         else:
           raise Unsupported('subscript store on %r (line %d)' % (base, t.lineno))
     else:
